@@ -29,8 +29,15 @@ def worker(k):
                 b = subprocess.run(['go', 'build', './...'], cwd=wt, env=env, capture_output=True, timeout=120)
                 if b.returncode != 0: res = 'build-fail'
                 else:
-                    t = subprocess.run(['go', 'test', '-vet=off', '-count=1', './...'], cwd=wt, env=env, capture_output=True, timeout=120)
-                    if t.returncode != 0: res = 'test-fail'
+                    # own process group, so that a looping test binary dies with its `go test` parent on timeout
+                    pr = subprocess.Popen(['go', 'test', '-vet=off', '-count=1', './...'], cwd=wt, env=env, stdout=subprocess.DEVNULL, stderr=subprocess.DEVNULL, start_new_session=True)
+                    try:
+                        if pr.wait(timeout=120) != 0: res = 'test-fail'
+                    except subprocess.TimeoutExpired:
+                        import signal
+                        os.killpg(pr.pid, signal.SIGKILL)
+                        pr.wait()
+                        res = 'timeout'
             except subprocess.TimeoutExpired:
                 res = 'timeout'
             open(p, 'wb').write(orig)
